@@ -237,6 +237,8 @@ type rstep struct {
 	Prefix string                       `json:"prefix"`
 	Style  string                       `json:"style"`
 	Via    int                          `json:"via"`   // which handle of the bucket(s) to use (1 or 2)
+	W      string                       `json:"w"`     // writer steps (wopen / wwrite / wclose / wcloseagain / wforget): the writer
+	Open   []string                     `json:"open"`  // objects ("bucket/name") that have a writer open after the step: not compared
 	SB     string                       `json:"sb"`    // copy: source bucket
 	SName  string                       `json:"sname"` // copy: source name
 	Exists bool                         `json:"exists"` // read: expected
@@ -337,6 +339,12 @@ func TestVerifC18Replay(t *testing.T) {
 			}
 			return handles[b][1]
 		}
+		type openWriter struct {
+			wc   io.WriteCloser
+			data []byte
+			nw   int
+		}
+		writers := map[string]*openWriter{}
 		for i, st := range bh.Steps {
 			if !good {
 				break
@@ -355,6 +363,41 @@ func TestVerifC18Replay(t *testing.T) {
 			case "write":
 				if err := writeObj(t, src, pick(st.B, st.Via), st.Name, datas[st.Data], st.Style); err != nil {
 					bad("write-error", rt.M{"err": err.Error()})
+				}
+			case "wopen", "wwrite", "wclose", "wcloseagain", "wforget":
+				// one step of a writer's life; several writers are open at the same time
+				err := guard(func() error {
+					w := writers[st.W]
+					switch st.Op {
+					case "wopen":
+						wc, err := pick(st.B, st.Via).Object(st.Name).NewWriter(ctx)
+						if err != nil {
+							return fmt.Errorf("NewWriter: %w", err)
+						}
+						writers[st.W] = &openWriter{wc: wc, data: datas[st.Data]}
+					case "wwrite":
+						h := len(w.data) / 2
+						part := w.data[:h]
+						if w.nw == 1 {
+							part = w.data[h:]
+						}
+						w.nw++
+						if n, err := w.wc.Write(part); err != nil || n != len(part) {
+							return fmt.Errorf("Write: %d of %d bytes, %v", n, len(part), err)
+						}
+					case "wclose":
+						if err := w.wc.Close(); err != nil {
+							return fmt.Errorf("Close: %w", err)
+						}
+					case "wcloseagain":
+						w.wc.Close() // whatever it returns
+					case "wforget":
+						delete(writers, st.W)
+					}
+					return nil
+				})
+				if err != nil {
+					bad("writer-"+st.Op, rt.M{"err": err.Error(), "w": st.W})
 				}
 			case "copy":
 				ok, _, cerr, err := copyObj(pick(st.B, st.Via), st.Name, pick(st.SB, st.Via), st.SName)
@@ -394,6 +437,10 @@ func TestVerifC18Replay(t *testing.T) {
 				}
 			}
 			got := snapshot(parent)
+			for _, o := range st.Open { // being written: no claim about what is visible
+				delete(want, "root/"+o)
+				delete(got, "root/"+o)
+			}
 			var diffs []string
 			for p, d := range got {
 				id := "sentinel"
